@@ -66,6 +66,12 @@ type job struct {
 	// WITH thread-sync: the kernel attaches nothing, so either LoadFilter reports an error (not judged here) or, if it claims
 	// success, the probes must still see the policy's decisions
 	Divergent bool       `json:"divergent,omitempty"`
+	// OtherThread (thread-sync loads only): the probes are issued by a wired thread that existed before the load and is not the
+	// one that loads - after a successful thread-sync load the policy decides for the process, whichever thread asks
+	OtherThread bool `json:"other_thread,omitempty"`
+	// BlockSeccomp: the loading thread runs under an enclosing filter that answers seccomp(2) itself with ENOSYS (a container
+	// profile, a kernel before 3.17): the load fails (not judged) - or, if it claims success, the probes must see the policy
+	BlockSeccomp bool `json:"block_seccomp,omitempty"`
 	Flags     uint32     `json:"flags"`
 	NNP       bool       `json:"nnp"`
 	Probes    []probeJob `json:"probes"`
@@ -179,6 +185,35 @@ func child() {
 		}
 	}
 	probes := j.Probes
+	var goProbe, probing chan struct{}
+	if j.OtherThread {
+		goProbe, probing = make(chan struct{}), make(chan struct{})
+		ready := make(chan struct{})
+		go func() {
+			runtime.LockOSThread()
+			close(ready)
+			<-goProbe
+			w[0] = 2
+			w[6] = uint32(syscall.Gettid())
+			for i := range probes {
+				p := &probes[i]
+				w[7] = uint32(i + 1)
+				_, _, e := syscall.RawSyscall6(uintptr(p.Nr), uintptr(p.Args[0]), uintptr(p.Args[1]), uintptr(p.Args[2]), uintptr(p.Args[3]), uintptr(p.Args[4]), uintptr(p.Args[5]))
+				w[16+i] = 0x10000 | uint32(e)
+			}
+			w[0] = 3
+			syscall.RawSyscall(syscall.SYS_EXIT_GROUP, 0, 0, 0)
+			for {
+			}
+		}()
+		<-ready
+	}
+	if j.BlockSeccomp {
+		if err := probe.BlockSeccompSyscall(); err != nil {
+			fmt.Fprintln(os.Stderr, "block:", err)
+			os.Exit(3)
+		}
+	}
 	lerr := seccomp.LoadFilter(seccomp.Filter{NoNewPrivs: j.NNP, Flag: seccomp.FilterFlag(j.Flags), Policy: pol})
 	if lerr != nil {
 		w[1] = 2
@@ -191,6 +226,10 @@ func child() {
 	// it still is, so an attempt to move it has no effect and the probes are issued by the thread that carries the filter
 	if probe.MigrateAway() {
 		w[8] = 1
+	}
+	if j.OtherThread {
+		close(goProbe)
+		<-probing // (never: the probing thread ends the process)
 	}
 	w[0] = 2
 	w[6] = uint32(syscall.Gettid())
@@ -236,6 +275,8 @@ type summary struct {
 	FailedLoads   int           `json:"failed_loads_not_judged"`
 	WithPrior     int           `json:"children_with_a_prior_policy"`
 	WithDivergent int           `json:"children_with_a_divergent_thread"`
+	OtherThread   int           `json:"children_probing_from_another_thread_after_thread_sync"`
+	Blocked       int           `json:"children_whose_seccomp_call_is_answered_ENOSYS"`
 	Samples       []interface{} `json:"samples"`
 }
 
@@ -759,6 +800,14 @@ func main() {
 		if fl&1 != 0 && rng.Intn(3) == 0 {
 			j.Divergent = true
 			sum.WithDivergent++
+		}
+		if fl&1 != 0 && !j.Divergent && rng.Intn(2) == 0 {
+			j.OtherThread = true
+			sum.OtherThread++
+			if rng.Intn(3) == 0 {
+				j.BlockSeccomp = true
+				sum.Blocked++
+			}
 		}
 		prevPJ = pj
 		works = append(works, work{base, j, -1})
